@@ -30,7 +30,7 @@ use rustc_middle::mir::{
     self, AggregateKind, AssertKind, BasicBlockData, Body, Const, ConstValue, Operand, Place,
     ProjectionElem, Rvalue, StatementKind, TerminatorKind, UnwindAction,
 };
-use rustc_middle::ty::{self, GenericArgsRef, Instance, InstanceKind, Ty, TyCtxt, TypingEnv};
+use rustc_middle::ty::{self, GenericArgsRef, Instance, InstanceKind, Ty, TyCtxt, TypeVisitableExt, TypingEnv};
 use rustc_span::{Span, DUMMY_SP};
 
 struct Cb;
@@ -460,7 +460,18 @@ impl<'tcx> Scan<'tcx> {
             ty::Str => jobj(&[("k", js("str"))]),
             ty::Tuple(ts) => {
                 let items: Vec<String> = ts.iter().map(|a| self.ty(a).to_string()).collect();
-                jobj(&[("k", js("tuple")), ("of", jarr(&items))])
+                // memory layout (field offsets, size), needed to decode constant tables of tuples
+                let mut offsets = String::from("null");
+                let mut size = String::from("null");
+                if !t.has_non_region_param() && !t.has_escaping_bound_vars() {
+                    if let Ok(l) = tcx.layout_of(self.env.as_query_input(t)) {
+                        size = l.size.bytes().to_string();
+                        let offs: Vec<String> =
+                            (0..ts.len()).map(|i| l.fields.offset(i).bytes().to_string()).collect();
+                        offsets = jarr(&offs);
+                    }
+                }
+                jobj(&[("k", js("tuple")), ("of", jarr(&items)), ("offsets", offsets), ("size", size)])
             }
             ty::FnDef(did, args) => jobj(&[
                 ("k", js("fndef")),
